@@ -1,5 +1,180 @@
-(* placeholder *)
+(* Props/C14.v — C14 "Graph parsing is faithful and insensitive to presentation".
+
+   Model: Model/GraphParse.v (parse_graph stage by stage, on tokens) +
+   Model/GraphBase.v (_proc_dep_pair, _compute_triggers, _set_triggers,
+   _set_output_opt), tied to cylc/flow/graph_parser.py by the C14 correspondence
+   stream (every generated AST in 8 renderings + malformed renderings through
+   the real GraphParser, compared inside Coq).
+   AST, reference semantics and renderers: Model/GraphAst.v.
+
+     graph_asserts g   the optionality assertions written in g
+                       (":succeeded" inferred for a plain right-hand node unless
+                        its group ends the chain - the end-of-chain rule)
+     graph_trigs g     the triggers written in g: (task, expression, suicide?)
+     graph_tasks g     the tasks g defines
+     state_means st g  the parser state st contains exactly those, nothing else
+     wf_graph g        g is well formed and its assertions are consistent
+     eoc_safe g        excludes the end-of-chain finding (see below)
+     presents g ls     ls is g with every chain cut into lines anywhere,
+                       lines in any order, any line repeated
+     lays_chain c lay  lay puts the line of chain c on one or more physical
+                       lines, broken only next to => & |, with any blanks
+                       between tokens, any comments and blank/comment-only
+                       lines after each physical line
+     render_text pre lys   the text: fillers, then the laid-out lines. *)
 From Coq Require Import List Bool Arith String.
-From Cylc Require Import Base.Util Gen.FamTables Model.GraphBase Model.GraphParse Model.GraphAst.
+From Cylc Require Import Base.Util Gen.FamTables Model.GraphBase Model.GraphExpr Model.FamTrig
+  Model.GraphParse Model.GraphAst
+  Proofs.GraphSemProofs Proofs.GraphPhysProofs Proofs.GraphParseProofs Proofs.GraphMalformedProofs.
 Import ListNotations.
-Theorem c14_placeholder : True. Proof. exact I. Qed.
+
+(* MAIN THEOREM (full statement, proved): every presentation of a well-formed
+   graph - chains vs pairs, line order, duplicated lines, whitespace, comments,
+   blank lines, continuation placement - is accepted, and the resulting
+   dependencies / optionality / task set are exactly what the graph says. *)
+Theorem c14_parse_render : forall g ls pre lys,
+  wf_graph g = true -> eoc_safe g = true ->
+  presents g ls -> Forall2 lays_chain ls lys ->
+  exists st, parse [] (render_text pre lys) = Ok st /\ state_means st g = true.
+Proof. exact parse_render. Qed.
+
+(* Presentation-insensitivity as a corollary: any two presentations of the same
+   graph are both accepted and both results mean that graph. *)
+Theorem c14_presentation_insensitive : forall g ls1 pre1 lys1 ls2 pre2 lys2,
+  wf_graph g = true -> eoc_safe g = true ->
+  presents g ls1 -> Forall2 lays_chain ls1 lys1 ->
+  presents g ls2 -> Forall2 lays_chain ls2 lys2 ->
+  exists st1 st2,
+    parse [] (render_text pre1 lys1) = Ok st1 /\ parse [] (render_text pre2 lys2) = Ok st2
+    /\ state_means st1 g = true /\ state_means st2 g = true.
+Proof.
+  intros g ls1 pre1 lys1 ls2 pre2 lys2 Hwf Hs P1 L1 P2 L2.
+  destruct (parse_render g ls1 pre1 lys1 Hwf Hs P1 L1) as [st1 [E1 M1]].
+  destruct (parse_render g ls2 pre2 lys2 Hwf Hs P2 L2) as [st2 [E2 M2]].
+  exists st1, st2. auto.
+Qed.
+
+(* The executable renderers (cut flags per chain, then a selection of line
+   indices that covers every line) produce presentations. *)
+Theorem c14_renderers_present : forall g cuts sel,
+  covers sel (List.length (cut_graph g cuts)) = true ->
+  presents g (arrange sel (cut_graph g cuts)).
+Proof. exact renderers_present. Qed.
+
+(* The two layers separately.  Logical: stages 3-6 on the printed lines. *)
+Theorem c14_logical_layer : forall g ls,
+  wf_graph g = true -> eoc_safe g = true -> presents g ls ->
+  exists st, parse_lines [] (map print_chain ls) = Ok st /\ state_means st g = true.
+Proof. exact parse_lines_presents. Qed.
+
+(* Physical: stages 1-2 undo blanks, comments, blank lines and continuation
+   breaks of ANY well-shaped logical lines (not only printed chains). *)
+Theorem c14_physical_layer : forall pre lys lines,
+  Forall2 lays lines lys ->
+  bind (phys_lines (render_text pre lys)) (join_lines true []) = Ok lines.
+Proof. exact phys_layer. Qed.
+
+(* MALFORMED TEXT IS NOT ACCEPTED.  Whatever the parser (model) accepts has:
+   no leading / dangling => & | , no && and no ||, and no pair with an OR on
+   the right, a suicide mark on the left, unbalanced parentheses on either
+   side, an empty node on the right, or an empty node in a plain AND list on
+   the left ([bad_pair]).  Contrapositive: each of these mutation classes is
+   rejected (GraphParseError), for every family map. *)
+Theorem c14_malformed_rejected : forall fm text st,
+  parse fm text = Ok st ->
+  exists nb full,
+    phys_lines text = Ok nb /\ join_lines true [] nb = Ok full
+    /\ starts_cont (hd [] nb) = false
+    /\ (nb <> [] -> ends_cont (last nb []) = false)
+    /\ (forall l, In l full -> has_double is_and l = false /\ has_double is_or l = false)
+    /\ (forall p, In p (lines_pairs (dedup_first toks_eqb [] full)) -> bad_pair p = false).
+Proof. exact parse_ok_wellformed. Qed.
+
+Theorem c14_bad_pair_rejected : forall fm eoc st p,
+  bad_pair p = true -> proc_pair fm eoc st p = GErr.
+Proof. exact proc_pair_bad. Qed.
+
+(* ---------------- findings, refuted in the faithful model ---------------- *)
+Local Open Scope string_scope.
+Definition nd (n : nat) : node := mkNode n 0 None false.
+
+(* FINDING (chains vs pairs): without [eoc_safe] the theorem is false.
+   g = "t0 => t1" + "t2 => t1 => t3": t1 ends one chain and is inside another.
+   Written as chains the parser records no t1:succeeded; with the second chain
+   cut into pairs it does (and only that form means what is written). *)
+Definition g_eoc : graph :=
+  [mkChain (LN (nd 0)) [[mkR false (nd 1)]];
+   mkChain (LN (nd 2)) [[mkR false (nd 1)]; [mkR false (nd 3)]]].
+
+Theorem c14_chains_vs_pairs_refuted :
+  wf_graph g_eoc = true /\ eoc_safe g_eoc = false
+  /\ presents g_eoc (arrange [0; 1] (cut_graph g_eoc []))
+  /\ presents g_eoc (arrange [0; 1; 2] (cut_graph g_eoc [[]; [true]]))
+  /\ outcome_means (parse_lines [] (map print_chain (arrange [0; 1] (cut_graph g_eoc [])))) g_eoc = false
+  /\ outcome_means (parse_lines [] (map print_chain (arrange [0; 1; 2] (cut_graph g_eoc [[]; [true]])))) g_eoc = true.
+Proof.
+  split; [vm_compute; reflexivity|]. split; [vm_compute; reflexivity|].
+  split; [apply renderers_present; vm_compute; reflexivity|].
+  split; [apply renderers_present; vm_compute; reflexivity|].
+  split; vm_compute; reflexivity.
+Qed.
+
+(* FINDING (empty node next to the arrow with | or ( ) on the left): [bad_pair]
+   cannot include it, because the code accepts "t0 | => t2" (and stores the
+   expression "t0:succeeded|"). *)
+Theorem c14_empty_operand_conditional_refuted :
+  exists st, parse [] [TN (nd 0); TOr; TArrow; TN (nd 2)] = Ok st
+             /\ exists t, assoc Nat.eqb 2 (ps_trig st) = Some [t]
+                          /\ eval_toks (fun _ => true) (tg_expr t) = None.
+Proof. eexists. split; [vm_compute; reflexivity|]. eexists. split; vm_compute; reflexivity. Qed.
+
+(* ---------------- non-vacuity ---------------- *)
+(* t0:fail? & t1[-P1] | (t2:finish | t3:x) => t4 & t5:y1? => t6 & !t7
+   t8
+   t4 & t8 => t9 => t6 *)
+Definition ex_g : graph :=
+  [mkChain (LOr (LAnd (LN (mkNode 0 0 (Some "fail") true)) (LN (mkNode 1 1 None false)))
+                (LPar (LOr (LN (mkNode 2 0 (Some "finish") false)) (LN (mkNode 3 0 (Some "x") false)))))
+           [[mkR false (nd 4); mkR false (mkNode 5 0 (Some "y1") true)]; [mkR false (nd 6); mkR true (nd 7)]];
+   mkChain (LN (nd 8)) [];
+   mkChain (LAnd (LN (nd 4)) (LN (nd 8))) [[mkR false (nd 9)]; [mkR false (nd 6)]]].
+
+Example c14_ex_wf : wf_graph ex_g = true /\ eoc_safe ex_g = true.
+Proof. vm_compute. auto. Qed.
+
+(* pairs, shuffled, one line twice; every token followed by a blank, a comment
+   on every line, continuation break after the first "=>" of the line when it
+   has one, blank and comment-only lines between *)
+Definition ex_ls : graph := arrange [3; 1; 0; 2; 4; 1] (cut_graph ex_g [[true; false]; []; [true]]).
+Definition ex_lay (c : chain) : layout :=
+  match split_on is_arrow (print_chain c) with
+  | a :: (b :: _) as rest =>
+      [(mkPl [0] (map (fun t => (t, [1])) (a ++ [TArrow])) (Some 2), [mkFi [] (Some 1)]);
+       (mkPl [] (map (fun t => (t, [])) (join_toks TArrow rest)) None, [mkFi [3] None])]
+  | _ => [(mkPl [0] (map (fun t => (t, [1])) (print_chain c)) (Some 2), [mkFi [] (Some 1); mkFi [3] None])]
+  end.
+
+Example c14_ex_hyps :
+  covers [3; 1; 0; 2; 4; 1] (List.length (cut_graph ex_g [[true; false]; []; [true]])) = true
+  /\ forallb (fun c => layout_ok (print_chain c) (ex_lay c) && negb (is_nil (ex_lay c))) ex_ls = true.
+Proof. vm_compute. auto. Qed.
+
+Example c14_ex_parse :
+  outcome_means (parse [] (render_text [mkFi [] None] (map ex_lay ex_ls))) ex_g = true.
+Proof. vm_compute. reflexivity. Qed.
+
+(* the malformed classes do occur: each of these is rejected *)
+Example c14_ex_malformed :
+  map (fun t => match parse [] t with GErr => true | _ => false end)
+    [ [TN (nd 0); TAnd; TAnd; TN (nd 1); TArrow; TN (nd 2)];          (* a && b => c *)
+      [TN (nd 0); TOr; TOr; TN (nd 1); TArrow; TN (nd 2)];            (* a || b => c *)
+      [TN (nd 0); TArrow; TN (nd 1); TArrow];                         (* dangling *)
+      [TArrow; TN (nd 0); TArrow; TN (nd 1)];                         (* leading *)
+      [TN (nd 0); TArrow; TN (nd 1); TOr; TN (nd 2)];                 (* OR on the right *)
+      [TBang; TN (nd 0); TArrow; TN (nd 1)];                          (* suicide on the left *)
+      [TLp; TN (nd 0); TArrow; TN (nd 1)];                            (* unbalanced ( *)
+      [TN (nd 0); TArrow; TArrow; TN (nd 1)];                         (* empty node *)
+      [TN (nd 0); TAnd; TArrow; TN (nd 1)];                           (* a & => b *)
+      [TN (nd 0); TWs 0; TN (nd 1); TArrow; TN (nd 2)] ]              (* a b => c *)
+  = [true; true; true; true; true; true; true; true; true; true].
+Proof. vm_compute. reflexivity. Qed.
